@@ -229,6 +229,15 @@ def r5_scan(prog, rep: Report, g: Func, f: Func):
         rep.unrec("C17.R5", g, "guards", "break / accept tests not found")
         return
     order_ok = lp.body.index(brk[0]) < lp.body.index(acc[0])
+    # the scan is the only producer of the result: every return hands back the accumulator, after the loop
+    others = [r for r in returns_of(g.node) if not (r.value is not None and src(r.value) == res and r in g.node.body
+                                                    and g.node.body.index(r) > g.node.body.index(lp))]
+    if others:
+        rep.unrec("C17.R5", g, "single-producer", f"`{src(others[0])}` produces a result without the scan of the sorted stream: "
+                  "whether it equals what the scan would return is a value-level question this check cannot decide",
+                  line=others[0].lineno)
+    else:
+        rep.ok("C17.R5", g, "single-producer", f"the only return is `return {res}` after the scan")
 
     def mk_term(found: bool):
         def term(x):
